@@ -160,6 +160,11 @@ def thread_scenarios(tier):
             threads=[[bf('d/a', 'w2', cmp=cmp, args=[2])], [sb('A', [bf('d/a', cmp=cmp, args=[1])])]],
             after=[sb('reader', [{'o': 'q', 'kind': 'readh' if cmp == 'HASH' else 'read', 'p': 'd/a', 'cmp': cmp}], args=(7,))])
     if tier != 'quick':
+        # the lookup starts before the first call claims the file (needs two preemptions)
+        S['T12b_HASH_lookup_started_before_the_claim'] = dict(
+            prep=[sb('A', [bf('d/a', cmp='HASH', args=[1])])],
+            threads=[[sb('A', [bf('d/a', cmp='HASH', args=[1])])], [bf('d/a', 'w2', cmp='HASH', args=[2])]],
+            after=[sb('reader', [{'o': 'q', 'kind': 'readh', 'p': 'd/a', 'cmp': 'HASH'}], args=(7,))])
         S['T9_three_threads_same_subbuild'] = dict(threads=[[sb('s')], [sb('s')], [sb('s')]])
     return S
 
